@@ -163,9 +163,21 @@ func execC07(e *Env, pp any) {
 			trailerReadEv = e.NextEv()
 		}
 	})
+	// The server may end the stream on its own (handler returned, server-side
+	// deadline, reset for a late body) concurrently with the cancellation. A
+	// terminal envelope (trailer or reset) written by the server BEFORE it read
+	// the client's reset is such a concurrent completion: the client may report
+	// either outcome. One written after the server read the reset is a
+	// consequence of the cancellation and exempts nothing.
 	trailerWrittenEv := 0
+	rstReadEv := 0
+	net.CEnds[0].Out.OnRead(func(n int, r *Rpc) {
+		if r.GetReset_() != nil && callOfWireID(net, r.GetId()) == p.Target.ID && rstReadEv == 0 {
+			rstReadEv = e.NextEv()
+		}
+	})
 	cin.OnWritten(func(n int, r *Rpc) {
-		if r.GetTrailer() != nil && r.GetReset_() == nil && callOfWireID(net, r.GetId()) == p.Target.ID && trailerWrittenEv == 0 {
+		if (r.GetTrailer() != nil || r.GetReset_() != nil) && callOfWireID(net, r.GetId()) == p.Target.ID && trailerWrittenEv == 0 && rstReadEv == 0 {
 			trailerWrittenEv = e.NextEv()
 		}
 	})
